@@ -21,6 +21,26 @@ Proof.
 Qed.
 Print Assumptions C18_once_per_tick.
 
+(* "Of the currently active schedule": every function start and every tick in the trace carries
+   the index of the schedule that was active at that moment (the latest (re)start before it), and
+   since the latest (re)start the function started at most as often as THAT schedule's ticker
+   delivered ticks: a tick left over by the previous schedule's ticker is never consumed. *)
+Theorem C18_tick_of_active_schedule : forall len ls,
+  let s := rexec true (rinit len) ls in
+  zcount is_fn_start (since_sched (r_trace s)) <= zcount is_tick (since_sched (r_trace s)) /\
+  idx_consistent (r_trace s) = true /\ active_sched (r_trace s) = r_idx s.
+Proof.
+  intros len ls s. destruct (rexec_fresh ls (rinit len) (rfresh_init len)) as [A B C]. fold s in A, B, C.
+  split; [destruct (r_tick_ready s); lia|]. split; assumption.
+Qed.
+Print Assumptions C18_tick_of_active_schedule.
+
+(* a tick pending when the next schedule starts is abandoned: the function does not run on it *)
+Example C18_stale_tick_dropped :
+  let s := rexec true (rinit 2) [LStart; LEnvTimer; LSelTimer; LEnvTick; LEnvTimer; LSelTimer; LSelTick] in
+  r_idx s = 1 /\ fn_starts (r_trace s) = 0 /\ r_g s = GSelect.
+Proof. vm_compute. repeat split. Qed.
+
 (* Once Stop has returned, no step of any thread starts or ends the function,
    for ever (Stop stays returned). *)
 Theorem C18_stop_quiescent : forall len ls l s',
